@@ -19,6 +19,7 @@ pub const MECHANISMS: &[&str] = &[
     "include_angle",       // `include <f(i+1)>
     "self_top",            // the top file itself takes part in the include cycle / chain through a search dir
     "guarded_reentry",     // a macro expands to an `include of a guarded header that uses the same macro again
+    "include_name_alias",  // `include `N1 where N1 -> N2 -> ... are object-like aliases ending in the quoted name
 ];
 
 pub const CYCLES: u64 = 8; // cycle lengths 1..=8
@@ -85,6 +86,23 @@ fn build(mech: &str, refs: &[Option<u64>], marker: &str, rng: &mut Rng, dirs: &[
             t.push_str(&filler(rng));
             nodes.push(VNode::file("/w/top.sv", &t));
             Built { nodes, macro_levels: levels, include_levels: 0 }
+        }
+        "include_name_alias" => {
+            // everything in the top file; the include name is reached through `levels` alias hops
+            let mut t = filler(rng);
+            for i in 1..=levels {
+                match refs[i as usize] {
+                    Some(j) => t.push_str(&format!("`define N{} `N{}\n", i, j)),
+                    None => t.push_str(&format!("`define N{} \"leaf.svh\"\n", i)),
+                }
+            }
+            t.push_str("`include `N1\n");
+            t.push_str(&filler(rng));
+            nodes.push(VNode::file("/w/top.sv", &t));
+            let p = if dirs.is_empty() || rng.coin() { "/w/leaf.svh".to_string() } else { format!("{}/leaf.svh", rng.pick(dirs)) };
+            nodes.push(VNode::file(&p, &leaf));
+            // the name resolution itself starts one expansion level down
+            Built { nodes, macro_levels: levels + 1, include_levels: 1 }
         }
         "guarded_reentry" => {
             // top: `define INC `include "g.svh" / `INC ; g.svh re-uses `INC under `ifndef guards.
@@ -215,7 +233,7 @@ impl Property for C09 {
             1 => vec!["/inc1".to_string()],
             _ => vec!["/inc1".to_string(), "/inc2".to_string()],
         };
-        let is_macro = mech == "macro" || mech == "macro_args";
+        let is_macro = mech == "macro" || mech == "macro_args" || mech == "include_name_alias";
         let refs: Vec<Option<u64>> = if is_cycle {
             let l = n;
             if is_macro {
@@ -334,7 +352,13 @@ impl Property for C09 {
             return rep;
         }
         if let Some(a) = &out.aborted {
-            rep.violations.push(crate::runner::abort_violation("C09", a));
+            let mut v = crate::runner::abort_violation("C09", a);
+            if a.starts_with("watchdog") {
+                v.clause = "C09.terminates".into();
+                v.kind = "hang".into();
+                v.detail = format!("{}: the call did not return and made no step (a loop without any grammar terminal or file operation)", sc.family);
+            }
+            rep.violations.push(v);
             rep.probe("aborted_executions", 1);
             rep.distinct_key = crate::rng::fnv(format!("{}|{}", sc.family, sc.knobs.stack_mib).as_bytes());
             rep.nontrivial = true;
